@@ -86,7 +86,7 @@ func (vector *Vector) AsyncReadFrom(r io.Reader) (int64, error, chan error) {
 		return n, nil, chErr
 	}
 
-	bSlice := unsafe.Slice((*byte)(unsafe.Pointer(&(*vector)[0])), sliceLen*Bytes)
+	bSlice := unsafe.Slice((*byte)(unsafe.Pointer(&(*vector)[0])), int(sliceLen)*Bytes)
 	read, err := io.ReadFull(r, bSlice)
 	n += int64(read)
 	if err != nil {
